@@ -171,8 +171,11 @@ def scenario_info(fam, sc, out):
             if ws[1] == "close":
                 nontrivial = True
             if ws[1] == "new":
-                counts["w:mode=" + dict(x.split("=") for x in ws[2:]).get("mode", "?")] = \
-                    counts.get("w:mode=" + dict(x.split("=") for x in ws[2:]).get("mode", "?"), 0) + 1
+                kv = dict(x.split("=") for x in ws[2:])
+                mode = "conc" if kv.get("conc") == "1" else (
+                    "timer" if int(kv["delay"]) > 0 and kv["timer"] == "1" else
+                    "delay" if int(kv["delay"]) > 0 else "direct")
+                counts["w:mode=" + mode] = counts.get("w:mode=" + mode, 0) + 1
     return {"counts": counts, "nontrivial": nontrivial}
 
 
@@ -184,10 +187,222 @@ def signature(fam, sc, msg):
 # ----------------------------------------------------------------------------- writer
 
 def gen_writer_scenario(rng):
-    return []
+    if rng.random() < 0.12:
+        return gen_writer_concurrent(rng)
+    delay = rng.choice([0, 0, 5, 10])
+    timer = rng.choice([0, 1])
+    mx = rng.choice([0, -1, -1, -5, 1, 2, 3, 4, 16])
+    shrink = rng.choice([0, -1, 5, 1000])
+    maxq = rng.choice([0, 0, 0, 5, 10, 50])
+    cap = rng.choice([0, 1, 2, 4])
+    ops = [f"w new delay={delay} timer={timer} max={mx} shrink={shrink} maxq={maxq} cap={cap} conc=0"]
+    nid = [0]
+
+    def item():
+        nid[0] += 1
+        return f"{nid[0]}:{rng.choice([0, 1, 1, 2, 3, 4, 8])}"
+
+    n_ops = rng.choice([4, 8, 16, 30])
+    closed = False
+    for _ in range(n_ops):
+        r = rng.random()
+        if r < 0.40:
+            ops.append("w enq " + item())
+        elif r < 0.55:
+            k = rng.choice([0, 1, 2, 3, 4, 5, 6, 17])
+            ops.append("w enqmany " + " ".join(item() for _ in range(k)))
+        elif r < 0.80:
+            d = max(delay, 1)
+            ops.append(f"w sleep {rng.choice([0, 1, d - 1, d, d, d + 1, 2 * d, 3 * d, 1000, 3000])}")
+        elif r < 0.86:
+            ops.append("w direct " + item())
+        elif r < 0.90:
+            ops.append("w failnext")
+        elif r < 0.96 or closed:
+            ops.append("w enq " + item())
+        else:
+            ops.append(f"w close {rng.choice([0, 1, 1])}")
+            closed = True
+    if rng.random() < 0.6:
+        if rng.random() < 0.5:
+            ops.append(f"w sleep {3 * max(delay, 1)}")
+        ops.append(f"w close {rng.choice([0, 1, 1, 1])}")
+        ops.append("w enq " + item())
+    return ops
+
+
+def gen_writer_concurrent(rng):
+    delay = rng.choice([0, 0, 5])
+    timer = rng.choice([0, 1])
+    mx = rng.choice([0, -1, 1, 2, 4])
+    maxq = rng.choice([0, 0, 0, 40])
+    ops = [f"w new delay={delay} timer={timer} max={mx} shrink={rng.choice([0, -1, 5])} maxq={maxq} "
+           f"cap={rng.choice([0, 1, 2])} conc=1"]
+    base = 100000
+    for _ in range(rng.choice([1, 2, 3])):
+        ops.append(f"w burst {base} {rng.choice([1, 2, 3, 4])} {rng.choice([1, 5, 20, 60])} {rng.choice([0, 1, 3])}")
+        base += 100000
+        if rng.random() < 0.5:
+            ops.append(f"w sleep {rng.choice([1, 5, 10, 100])}")
+    if rng.random() < 0.7:
+        ops.append(f"w cburst {base} {rng.choice([1, 2, 3])} {rng.choice([5, 20, 60])} 1 {rng.choice([0, 1, 1])}")
+    else:
+        ops.append(f"w close {rng.choice([0, 1, 1])}")
+    ops.append("w sleep 1000")
+    return ops
+
+
+def parse_tx(line):
+    """-> list of (kind, failed, ids) for the tx= word of an output line"""
+    calls = []
+    for w in line.split():
+        if w.startswith("tx=") and w != "tx=-":
+            for c in w[3:].split(";"):
+                kind = c[:c.index("[")]
+                failed = kind.endswith("F")
+                calls.append((kind.rstrip("F"), failed, parse_ids(c[c.index("["):])))
+    return calls
+
+
+def kvs(line):
+    d = {}
+    for w in line.split():
+        if "=" in w:
+            k, v = w.split("=", 1)
+            d[k] = v
+    return d
 
 
 def writer_oracle(sc, out):
+    cfg = kvs(sc[0])
+    if cfg.get("conc") == "1":
+        return writer_oracle_conc(sc, out, cfg)
+    delay, maxq = int(cfg["delay"]), int(cfg["maxq"])
+    sizes = {}
+    accepted, delivered = [], []
+    closed, failed, slow_seen, failarmed = False, False, False, False
+    closed_flush = None
+    for op, o in zip(sc, out):
+        ws = op.split()[1:]
+        if o == "<missing>":
+            return f"no output for `{op}` (crash, deadlock or hang)"
+        if o == "PANIC":
+            return f"panic at `{op}`"
+        if ws[0] == "new":
+            continue
+        if ws[0] == "failnext":
+            failarmed = True
+            continue
+        if o == "bad-op":
+            return "harness rejected op " + op
+        kv = kvs(o)
+        calls = parse_tx(o)
+        direct_ids = []
+        if ws[0] == "direct":
+            direct_ids = [int(ws[1].split(":")[0])]
+        if ws[0] in ("enq", "enqmany"):
+            items = [(int(w.split(":")[0]), int(w.split(":")[1])) for w in ws[1:]]
+            for i, s in items:
+                sizes[i] = s
+            res = kv.get("res")
+            if closed:
+                if res != "closed":
+                    return f"`{op}` after close returned {res}, expected connection-closed"
+            else:
+                pending = sum(sizes[i] for i in accepted[len(delivered):]) + sum(s for _, s in items)
+                want = "slow" if (maxq > 0 and pending > maxq) else "ok"
+                if not failed and res != want:
+                    return (f"`{op}` returned {res} with {pending} bytes pending and MaxQueueSize={maxq}: "
+                            f"expected {want}")
+                if res == "slow":
+                    slow_seen = True
+                if res in ("ok", "slow"):
+                    accepted += [i for i, _ in items]
+        if ws[0] == "close":
+            was_closed = closed
+            closed = True
+            if not was_closed:
+                closed_flush = ws[1] != "0"
+        for kind, f, ids in calls:
+            if direct_ids and ids == direct_ids and kind == "W":
+                direct_ids = []
+                if f:
+                    failarmed = False
+                continue
+            if f:
+                failed = True
+                continue
+            if failed:
+                continue
+            if kind == "W" and len(ids) != 1:
+                return f"WriteFn called with {len(ids)} items"
+            exp = accepted[len(delivered):len(delivered) + len(ids)]
+            if ids != exp:
+                return (f"at `{op}` the transport received {ids} but the next queued messages are "
+                        f"{accepted[len(delivered):len(delivered) + len(ids) + 2]} (loss, duplication or reordering)")
+            delivered += ids
+        if ws[0] == "close" and not failed and closed_flush and ws[1] != "0" and delivered != accepted                 and not (closed and closed_flush is False):
+            return f"close with flush left {len(accepted) - len(delivered)} queued messages undelivered"
+        if ws[0] == "close" and not failed and closed_flush and delivered != accepted:
+            return f"close with flush left {len(accepted) - len(delivered)} queued messages undelivered"
+        if closed and not failed and ws[0] != "close" and any(not f for _, f, _ in calls) and ws[0] != "direct":
+            return f"transport written at `{op}` after close"
+        if ws[0] == "sleep" and not closed and not failed and not slow_seen and not failarmed:
+            need = 3 * delay if delay > 0 else 0
+            if int(ws[1]) >= need and int(kv.get("qlen", 0)) != 0:
+                return f"after `{op}` {kv.get('qlen')} messages are still queued and no flush delivered them"
+        if delay == 0 and not closed and not failed and not failarmed and int(kv.get("qlen", 0)) != 0:
+            return f"direct mode: {kv.get('qlen')} messages left in the queue after `{op}`"
+    return None
+
+
+def writer_oracle_conc(sc, out, cfg):
+    delay = int(cfg["delay"])
+    acc = {}      # producer key -> list of accepted ids in enqueue order
+    delivered = {}
+    seen = set()
+    closed, closed_flush = False, None
+    for op, o in zip(sc, out):
+        ws = op.split()[1:]
+        if o == "<missing>":
+            return f"no output for `{op}` (crash, deadlock or hang)"
+        if o == "PANIC":
+            return f"panic at `{op}`"
+        if ws[0] == "new":
+            continue
+        if o == "bad-op":
+            return "harness rejected op " + op
+        kv = kvs(o)
+        if ws[0] in ("burst", "cburst"):
+            ids = sorted(parse_ids(kv["acc"]) + parse_ids(kv["slow"]))
+            for i in ids:
+                acc.setdefault(i // 1000, []).append(i)
+            if closed and ids:
+                return f"`{op}`: enqueue accepted after close"
+            if ws[0] == "cburst" and len(ws) == 6:
+                closed = True
+                closed_flush = ws[5] != "0"
+        if ws[0] == "close" and not closed:
+            closed, closed_flush = True, ws[1] != "0"
+        for kind, f, ids in parse_tx(o):
+            if f:
+                return None
+            for i in ids:
+                if i in seen:
+                    return f"message {i} delivered twice"
+                seen.add(i)
+                delivered.setdefault(i // 1000, []).append(i)
+        for p, d in delivered.items():
+            a = acc.get(p, [])
+            if d != a[:len(d)]:
+                return (f"at `{op}` producer {p}: transport sequence {d[:8]}… is not a prefix of its accepted "
+                        f"sequence {a[:8]}… (loss, duplication or reordering)")
+        quiet_all = (delay == 0 and not closed) or (closed and closed_flush) or                     (ws[0] == "sleep" and int(ws[1]) >= 100 and not closed and int(cfg["maxq"]) == 0)
+        if quiet_all:
+            for p, a in acc.items():
+                if delivered.get(p, []) != a:
+                    return (f"after `{op}` producer {p}: {len(a) - len(delivered.get(p, []))} accepted messages "
+                            f"were not delivered")
     return None
 
 
